@@ -1,7 +1,16 @@
 (* C38: line-protocol driver around the extracted Gallina contract model (parsing and printing only).
    D n {bounds phys}*n bounds phys        declaration: inputs then output; bounds := - | L lb | U ub | B lb ub
+   E n {bounds phys}*n bounds phys        the same for the c++ interface (may carry differently rounded bounds)
+   O params static from_file nochecks     DSL options (0 / 1 each)
+   F - | F k c1..ck                       parameters file: absent, or the classes of its lines: B blank, H comment,
+                                          T wrong token count, A<known><convertible> (A11, A01, A10, A00)
    G variant pol nargs e0 (R value errno | T) nvals v1..vn   -> "status bounds_status c_error_number ret errno_after"
    C nvals v1..vn                                             -> value of <name>_checkBounds
+   M (R value errno | T)                                      -> value returned by the C interface's main function
+   K dflt rtmod env nvals v1..vn                              -> c++ checkBounds: "kind rank physical warned"
+   X dflt rtmod env (R value errno | T) nvals v1..vn          -> c++ operator(): "kind rank physical ret warned"
+      dflt: default policy 0/1/2, rtmod 0/1, env: - (unset) | 0 | 1 | 2; kind V | G | R | L; warned: ranks or `.`
+   variant: A as found (F11), F fixed, D documented (nan for every negative status)
    doubles: nan | inf | -inf | order-preserving 64-bit integer key *)
 open C38_model
 
@@ -30,37 +39,83 @@ let var () = let b = opt_bounds () in let p = opt_bounds () in { v_bounds = b; v
 let rec values n = if n = 0 then [] else let v = ext_of (next ()) in v :: values (n - 1)
 let pol_of = function "0" -> PNone | "1" -> PWarning | "2" -> PStrict | _ -> failwith "policy"
 let zs z = Int64.to_string (int64_of_z z)
+let rec int_of_nat = function O -> 0 | S n -> 1 + int_of_nat n
+let bool_of s = (s = "1")
+let ranks = function [] -> "." | l -> String.concat "," (List.map (fun n -> string_of_int (int_of_nat n)) l)
+let body () = match next () with
+  | "R" -> let v = ext_of (next ()) in let el = key (next ()) in Returns (v, el)
+  | _ -> Throws
+let pline_of = function
+  | "B" -> PBlank | "H" -> PComment | "T" -> PTokens
+  | "A11" -> PAssign (true, true) | "A10" -> PAssign (true, false) | "A01" -> PAssign (false, true) | "A00" -> PAssign (false, false)
+  | _ -> failwith "pline"
+let cxx_pol () =
+  let dflt = pol_of (next ()) in
+  let rtmod = bool_of (next ()) in
+  let env = (match next () with "-" -> None | s -> Some (pol_of s)) in
+  cxx_policy dflt rtmod env
 
 let () =
   let d = ref { inputs = []; output = { v_bounds = None; v_phys = None } } in
+  let dx = ref !d in
+  let o = ref { o_params = false; o_static = false; o_from_file = true; o_nochecks = false } in
+  let pf = ref None in
+  let decl () =
+    let n = int_of_string (next ()) in
+    let rec go k = if k = 0 then [] else let v = var () in v :: go (k - 1) in
+    let ins = go n in
+    let out = var () in
+    { inputs = ins; output = out } in
   try
     while true do
       let line = input_line stdin in
       toks := List.filter (fun s -> s <> "") (String.split_on_char ' ' line);
       if !toks <> [] then
         (match next () with
-         | "D" ->
-           let n = int_of_string (next ()) in
-           let rec go k = if k = 0 then [] else let v = var () in v :: go (k - 1) in
-           let ins = go n in
-           let out = var () in
-           d := { inputs = ins; output = out }
+         | "D" -> d := decl ()
+         | "E" -> dx := decl ()
+         | "O" ->
+           let a = bool_of (next ()) in let b = bool_of (next ()) in let c = bool_of (next ()) in let e = bool_of (next ()) in
+           o := { o_params = a; o_static = b; o_from_file = c; o_nochecks = e }
+         | "F" ->
+           (match next () with
+            | "-" -> pf := None
+            | k -> let rec go k = if k = 0 then [] else let l = pline_of (next ()) in l :: go (k - 1) in
+              pf := Some (go (int_of_string k)))
          | "G" ->
-           let vr = (match next () with "F" -> Fixed | _ -> AsFound) in
+           let vr = (match next () with "F" -> Fixed | "D" -> Documented | _ -> AsFound) in
            let p = pol_of (next ()) in
            let nargs = nat_of_int (int_of_string (next ())) in
            let e0 = key (next ()) in
-           let body = (match next () with
-               | "R" -> let v = ext_of (next ()) in let el = key (next ()) in Returns (v, el)
-               | _ -> Throws) in
+           let b = body () in
            let n = int_of_string (next ()) in
            let args = values n in
-           let r = generic Z.ltb vr !d args nargs p e0 body in
+           let r = generic_opt Z.ltb vr !o !pf !d args nargs p e0 b in
            print_endline (String.concat " " [zs r.status; zs r.bounds_status; zs r.c_error_number; string_of_ext r.ret; zs r.errno_after])
          | "C" ->
            let n = int_of_string (next ()) in
            let args = values n in
-           print_endline (zs (c_checkBounds Z.ltb !d args))
+           print_endline (zs (c_checkBounds_opt Z.ltb !o.o_nochecks !d args))
+         | "M" ->
+           let b = body () in
+           print_endline (string_of_ext (c_main Z.ltb !o.o_nochecks !d b))
+         | "K" ->
+           let p = cxx_pol () in
+           let n = int_of_string (next ()) in
+           let args = values n in
+           (match cxx_checkBounds Z.ltb !o.o_nochecks !dx args p with
+            | CbThrow (i, ph) -> Printf.printf "G %d %d .\n" (int_of_nat i) (if ph then 1 else 0)
+            | CbPass w -> Printf.printf "V 0 0 %s\n" (ranks w))
+         | "X" ->
+           let p = cxx_pol () in
+           let b = body () in
+           let n = int_of_string (next ()) in
+           let args = values n in
+           (match cxx_call Z.ltb !o.o_nochecks !dx args p b with
+            | XRange (i, ph) -> Printf.printf "G %d %d - .\n" (int_of_nat i) (if ph then 1 else 0)
+            | XRuntime -> print_endline "R 0 0 - ."
+            | XLaw -> print_endline "L 0 0 - ."
+            | XValue (v, w) -> Printf.printf "V 0 0 %s %s\n" (string_of_ext v) (ranks w))
          | _ -> failwith "command")
     done
   with End_of_file -> ()
